@@ -25,6 +25,27 @@ LAYERS = {
         'shards': {'quick': 1, 'thorough': 8},
         'crash_props': ['C18'],
     },
+    'l3': {
+        'n': {'quick': 2500, 'thorough': 30000},
+        'shards': {'quick': 1, 'thorough': 8},
+        'crash_props': ['C18'],
+    },
+    'l5': {
+        'n': {'quick': 120, 'thorough': 600},
+        'shards': {'quick': 1, 'thorough': 8},
+        'extra': {'quick': ['-conc', '25'], 'thorough': ['-conc', '120']},
+        'crash_props': ['C18'],
+    },
+    'zoo': {
+        'n': {'quick': 1500, 'thorough': 20000},
+        'shards': {'quick': 1, 'thorough': 4},
+        'crash_props': ['C18'],
+    },
+    'sqlite': {
+        'n': {'quick': 400, 'thorough': 6000},
+        'shards': {'quick': 1, 'thorough': 8},
+        'crash_props': ['C18'],
+    },
 }
 
 PROPS = {
@@ -42,6 +63,12 @@ PROPS = {
         'modelled_not_verified': ["as C01"],
         'assumptions': ["the reference lexer in Lean (SqlairModel/Lexer.lean) is the specification of literal/comment regions"],
     },
+    'C12': {'layers': ['l4', 'sqlite'], 'modelled_not_verified': ["sql.Tx (done flag, connection pinning, Tx.Stmt, closing open rows at the end) is an environment model validated by the L4 correspondence"], 'assumptions': ["Commit makes all take effect together / Rollback none is the engine's transaction semantics given the bracket; observed with real SQLite, not proved"]},
+    'C13': {'layers': ['l4'], 'modelled_not_verified': ["database/sql pool (InUse), Rows auto-close on EOF/error, driver ErrBadConn retry (not modelled, not generated)"], 'assumptions': []},
+    'C14': {'layers': ['l4'], 'modelled_not_verified': ["sql.Rows (lasterr, Close, Err, Scan ordering) is an environment model validated by the L4 correspondence"], 'assumptions': []},
+    'C15': {'layers': ['l4'], 'modelled_not_verified': ["rows are abstract ids with a converts/does-not-convert flag; the scan itself is C06's"], 'assumptions': []},
+    'C20': {'layers': ['l4'], 'modelled_not_verified': ["database/sql checks ctx.Done() before acquiring a connection (DB.conn, Tx.grabConn)"], 'assumptions': ["O3: on the TX-cached path sql.Tx.Stmt may prepare under a background context; nothing is executed"]},
+    'C18': {'layers': ['zoo', 'l1', 'l2', 'l3', 'l4', 'l5'], 'modelled_not_verified': ["panic conditions of reflect / runtime primitives are not modelled: absence of panics on the value zoo is observed (recover, watchdog), not proved", "memory exhaustion is out of scope"], 'assumptions': ["receivers (nil *Statement, *DB, *TX) are outside the guarantee"]},
     'C19': {
         'layers': ['l1'],
         'modelled_not_verified': ["as C01", "fmt formatting of the messages is ported by hand; %q of arbitrary text is compared by its fixed parts only"],
@@ -74,6 +101,58 @@ CLAIMED = {
         'technique': 'Lean 4 proof (line-bookkeeping invariant through every parse function) + differential correspondence on (q, newline-prefixed q)',
         'design_ref': 'DESIGN.md section 5 C19',
     },
+}
+
+RT_NOTE = "Trusted: Lean kernel; the runtime model (SqlairModel/Runtime.lean) is a hand port of sqlair.go over a model of the parts of database/sql it uses (Rows, Stmt events, Tx, context check), validated per run by the L4 correspondence: returned values, driver event log, InUse for scripted operations with faults injected at every driver call; ErrBadConn retries and data races are outside the model"
+
+CLAIMED.update({
+    'C02': {
+        'text': "Proved in Lean for every byte string: the parser model rejects every input whose literal never closes according to an independent reference lexer, and no expression "
+                "node of an accepted input starts or ends strictly inside a literal or comment region (c02_opaque, with bridge lemmas equating the parser's two skippers with the lexer and "
+                "machine-checked witnesses that neither hypothesis can be dropped); instantiated for the Go-faithful decoder (c02_opaque_go). Tied to parser.go by the L1 correspondence; the "
+                "same predicate holdsC02 is evaluated on the implementation's nodes.",
+        'note': PARSER_NOTE + "; hypotheses AsciiDec (ASCII byte decodes to itself) and ClassAscii (quotes, '-', '/', blanks are not name characters) are proved for the model's decoder and for every classifier agreeing with ASCII tables",
+        'technique': 'Lean 4 proof (lexer-state invariant carried through every parse function) + differential correspondence',
+        'design_ref': 'DESIGN.md section 5 C02',
+    },
+    'C12': {
+        'text': "Proved in Lean for all finish-call sequences and all permutations of them (= interleavings of the atomic compare-and-swap): exactly one Commit/Rollback reaches the driver, "
+                "all others return ErrTXDone and emit nothing; a query on a finished TX (also a Query object created earlier) leaves the world unchanged. Connection identity and bracketing of TX "
+                "statements between BEGIN and the finisher, cached and uncached, are checked on the implementation's driver log (holdsC12) and compared with the model's log.",
+        'note': RT_NOTE, 'technique': 'Lean 4 proof over TX state machine (all permutations) + driver-log correspondence', 'design_ref': 'DESIGN.md section 5 C12',
+    },
+    'C13': {
+        'text': "Proved in Lean for every fault script, retrieval method and argument mistake: when Get/GetAll/Run return, or any Iterator call sequence containing Close returns, every result "
+                "set opened has exactly one close event and inUse equals its value before the call (induction over the row list with a failure at any row).",
+        'note': RT_NOTE, 'technique': 'Lean 4 proof (balance invariant over all fault scripts) + fault-script correspondence', 'design_ref': 'DESIGN.md section 5 C13',
+    },
+    'C14': {
+        'text': "Proved in Lean for every call sequence over {Next, Get(valid/outcome/nil outcome/invalid), Close, cancel}, every result size and fault position: Close is idempotent, Next is "
+                "sticky-false, rows are delivered in driver order each once, Get before Next errs, and a fetch failure or cancellation that ended iteration is returned by every Close.",
+        'note': RT_NOTE, 'technique': 'Lean 4 proof (iterator protocol invariants by induction over call sequences) + call-sequence correspondence', 'design_ref': 'DESIGN.md section 5 C14',
+    },
+    'C15': {
+        'text': "Proved in Lean for every script: GetAll is all-or-nothing and succeeds only with every row of the result (failure at any row, scan error, close error are reported); Get returns "
+                "ErrNoRows exactly for an empty result of a statement with outputs (exact characterisation; the tidy iff needs the proviso that the driver does not inject ErrNoRows itself) and stores the first row.",
+        'note': RT_NOTE, 'technique': 'Lean 4 proof (closed forms getSpec/getAllSpec by induction on the row list) + correspondence', 'design_ref': 'DESIGN.md section 5 C15',
+    },
+    'C20': {
+        'text': "Proved in Lean: a context that is done at run time produces no driver event and the context's error through Iter, Get and GetAll. That the driver sees the caller's context "
+                "(values, deadline) at prepare and execution, nil = Background, for every retrieval method x DB/TX x cached/uncached is checked on the implementation's driver log by holdsC20.",
+        'note': RT_NOTE + "; the theorem is short, the correspondence carries the weight for the context-identity half", 'technique': 'Lean 4 proof + driver-log correspondence with context markers',
+        'design_ref': 'DESIGN.md section 5 C20',
+    },
+})
+
+CLAIMED['C18'] = {
+    'text': "Partial. Proved in Lean: the parser model terminates on every byte string (no loop exhausts its fuel: c18_parse_no_fuel and the scanner-loop totality lemmas), GetAll's row "
+            "loop terminates, every reachable Iterator state is well-formed. Observed, not proved: no panic / fatal error / hang on a zoo of ~130 Go values (every kind, nil and typed-nil "
+            "values, pointers to nil maps, nil embedded struct pointers, recursive embedded types, unexported fields, ...) in every argument position of Prepare, Query, Get, GetAll, "
+            "Iterator.Get, on odd result columns and on random byte strings as queries; crashes seen by any other layer are attributed here. The six panics of the pinned tree were repaired (known_findings.json).",
+    'note': "Trusted: Lean kernel for the termination theorems; the panic-freedom half rests on the sampled zoo (recover + 20 s watchdog + process exit code), because the panic conditions of "
+            "reflect primitives are not part of the model (DESIGN section 10)",
+    'technique': 'Lean 4 termination/totality proofs over the models + exhaustive-by-position value-zoo sweep under recover/watchdog',
+    'design_ref': 'DESIGN.md section 5 C18',
 }
 
 NOT_CLAIMED_REASON = {}
